@@ -82,7 +82,8 @@ func build(c convgen.Case) (in cty.Value, target cty.Type, ok bool) {
 // correspond to the current result position (several when a tuple/object was
 // turned into a collection); ok=false means "no information" (the input has a
 // placeholder itself, or no counterpart, at this position). A placeholder is
-// reported only if every corresponding input position exists and is resolved.
+// reported only if every corresponding input position exists, is resolved,
+// and all of them are resolved to the same type.
 // vals are the input values at this position; the second result reports
 // whether the placeholder sits below a collection that is known and empty in
 // the input (used for root-cause classification only).
@@ -93,6 +94,12 @@ func dynLeak(vals []cty.Value, ins []spec.T, ok bool, tgt *spec.T, res spec.T, p
 		}
 		for _, in := range ins {
 			if in.K == spec.KDynamic {
+				return "", false
+			}
+			// several input positions feed this one (tuple/object turned into a
+			// collection): only when they agree is there one type the input
+			// has resolved the placeholder to
+			if !in.Equal(ins[0]) {
 				return "", false
 			}
 		}
@@ -589,8 +596,12 @@ func init() {
 			if f := model.Admits(oa.v, oc.v); f != nil {
 				if f.Kind == "admits/type" {
 					at, tg := spec.FromCty(abs.Type()), in.C.Target
-					if typeDiffExplained(&at, &tg, spec.FromCty(oa.v.Type()), spec.FromCty(oc.v.Type())) {
+					art, crt := spec.FromCty(oa.v.Type()), spec.FromCty(oc.v.Type())
+					switch {
+					case typeDiffExplained([]spec.T{at}, &tg, art, crt):
 						f.With("cause", causeUnknownMapOptDyn)
+					case typeDiffUnderEmpty([]cty.Value{conc}, art, crt, false):
+						f.With("cause", causeEmptyCollection)
 					}
 				}
 				f.Msg = fmt.Sprintf("Convert(a)=%#v does not admit Convert(c)=%#v (a=%#v, c=%#v, target %s): %s", oa.v, oc.v, abs, conc, in.C.Target, f.Msg)
